@@ -506,7 +506,7 @@ impl Prop for C18 {
     }
 
     fn run_wall_limit_s() -> u64 {
-        900
+        60
     }
 
     fn panics_are_violations() -> bool {
@@ -1073,7 +1073,7 @@ impl Prop for C11Pool {
     }
 
     fn run_wall_limit_s() -> u64 {
-        900
+        120
     }
 
     fn panics_are_violations() -> bool {
